@@ -1536,3 +1536,22 @@ mut("c16-decoder-rejects-nonminimal-prefix", "C16", "src/protocol/varint.rs",
             v => Ok(Self(v)),
         }""",
     "R16.7/", "a complete pair with a four-byte prefix below 128 stops the iterator (seeds C03-i, C16-i)")
+mut("c03-try-fill-unguarded-split", "C03", "src/parser/request.rs",
+    """            if $inp.len() >= needed {
+                let head;
+                (head, $inp) = $inp.split_at_mut(needed);
+                $vec.extend(&*head);
+            } else if $must_move {
+                $vec.extend(&*$inp);
+                return &mut [];
+            } else {
+                return $inp;
+            }""",
+    """            if $must_move && $inp.len() < needed {
+                $vec.extend(&*$inp);
+                return &mut [];
+            }
+            let head;
+            (head, $inp) = $inp.split_at_mut(needed);
+            $vec.extend(&*head);""",
+    "R3.11/parse_buffered", "a pair's length header split across two records and then a short chunk: split_at_mut panics (seed C12-i)")
